@@ -148,6 +148,15 @@ func TestDeepNesting(t *testing.T) {
 	for _, shape := range shapes {
 		for _, api := range apis {
 			for _, d := range depths {
+				if shape != "struct" && api == "decode" && d > 1<<12 {
+					// Forcing a lazily decoded list or map reads the whole rest of the message at
+					// every level: quadratic in the nesting depth (measured: 2^14 levels 12 s,
+					// 2^16 levels 3 min of CPU, so 2^20 would take half a day). That terminates, which
+					// is all this property asks; it is recorded in DESIGN.md 5 ("not reported") and
+					// kept out of the probe, whose ceiling is meant for hangs.
+					ev.Class(fmt.Sprintf("deep-skipped:%s/%s/2^%d-quadratic-forcing", shape, api, log2(d)))
+					continue
+				}
 				c := DeepCase{Shape: shape, API: api, Depth: d}
 				dg := ev.DigestJSON(c)
 				ev.Case(dg, true, "deep:"+shape+"/"+api, fmt.Sprintf("deep-depth:2^%d", log2(d)))
